@@ -23,9 +23,6 @@ func expectedWorktreeReport(a *Abs) (modified, deleted, untracked []string, free
 		} else if BlobID(data) != id {
 			modified = append(modified, p)
 		}
-		if ign.Ignored(p) != no {
-			free[p] = true // a tracked path that matches an ignore rule: the statement does not say
-		}
 	}
 	for p := range a.W {
 		if _, ok := I[p]; ok {
@@ -139,6 +136,7 @@ func c13State(c *Ctx, n *Node) []Violation {
 func checkC13(e *RunEnv) *CheckResult {
 	paths := []string{"a", "d/x", "d/s/z", "n", "e/f/g/h", "d.c", "d0"}
 	ignFiles := []string{"build/o", "x.log", "sub/y.log", "sub/build", "a.logx"}
+	_ = ignFiles
 	spec := &Spec{
 		Seeds: []Seed{{"S0", seedS0()}, {"S1", seedS1()}, {"S5", seedS5()}, {"S1+siblings", append(seedS0(), Write("d/x", v1("d/x")), Write("d.c", v1("d.c")), Write("d0", v1("d0")), Write("d-x", v1("d-x")), Write("dd/k", v1("dd/k")), Run("add", "d", "d.c", "d0", "d-x", "dd"), Run("commit", "-m", "c1"))}},
 		Depth: e.pick(3, 5),
@@ -160,6 +158,8 @@ func checkC13(e *RunEnv) *CheckResult {
 			}
 			if hasDirOnDisk(a, "d") {
 				steps = append(steps, Rmdir("d"))
+				// type change: the tracked directory d replaced by a regular file
+				steps = append(steps, Seq(Rmdir("d"), Write("d", "now a file\n")))
 			}
 			steps = append(steps, Run("commit", "-m", "m"))
 			if _, ok := a.W[".goitignore"]; ok {
@@ -168,10 +168,13 @@ func checkC13(e *RunEnv) *CheckResult {
 				steps = append(steps, Write(".goitignore", "build/\n*.log\n"))
 			}
 			for _, p := range ignFiles {
-				if _, ok := a.W[p]; !ok {
+				if d, ok := a.W[p]; !ok {
 					steps = append(steps, Write(p, v1(p)))
+				} else if string(d) == v1(p) {
+					steps = append(steps, Write(p, v2(p)))
 				}
 			}
+			steps = append(steps, Run("add", "x.log"), Run("add", "build"))
 			return steps
 		},
 		CheckState: c13State,
